@@ -42,26 +42,30 @@ theorem migrate_preserve_partial (start : String) (db db' : Db) (h : migrate sta
 /-- the witness database of DESIGN §9 F17: schema 3.3, one job started at 03:04:05.678901 -/
 def witness : Db :=
   [⟨"job", ["id", "start_time", "end_time"],
-     [[("id", .text "j"), ("start_time", .ts "2024-01-02 03:04:05" ".678901"), ("end_time", .null)]]⟩,
+     [[("id", .text "j"), ("start_time", .ts 1704164645 ".678901"), ("end_time", .null)]]⟩,
    ⟨"execution", ["id", "args", "job_id"], []⟩,
    ⟨"redun_version", ["id", "version", "timestamp"], []⟩]
 
 /-- REFUTED full-strength statement: upgrading the witness from 3.3 (`f68b3aaee9cc`) succeeds and the job's
-start time comes out without its fractional seconds. -/
+start time comes out without its fractional seconds (03:04:05.678901, epoch 1704164645, becomes 03:04:05). -/
 theorem refuted_subsecond :
     (match migrate "f68b3aaee9cc" witness with
      | .ok db' => cell db' "job" 0 "start_time"
-     | .error _ => none) = some (.ts "2024-01-02 03:04:05" "") ∧
-    cell witness "job" 0 "start_time" = some (.ts "2024-01-02 03:04:05" ".678901") := by decide
+     | .error _ => none) = some (.ts 1704164645 "") ∧
+    cell witness "job" 0 "start_time" = some (.ts 1704164645 ".678901") := by decide
+
+/-- ... and it is not always a truncation: sqlite rounds to milliseconds first, so a fraction of .9995 or more
+moves the timestamp to the NEXT second (found by the correspondence check: 20:33:25.999612 -> 20:33:26). -/
+theorem refuted_subsecond_rounds_up : dtUtc (.ts 1709152405 ".999612") = .ts 1709152406 "" := by decide
 
 /-! non-vacuity of the implications: upgrades that succeed -/
 def tiny : Db :=
   [⟨"task", ["hash", "name", "namespace", "source"], [[("hash", .text "t"), ("name", .text "f"), ("namespace", .text ""), ("source", .text "")]]⟩,
    ⟨"value", ["value_hash", "type", "format", "value"], []⟩,
    ⟨"job", ["id", "start_time", "end_time", "task_hash", "cached", "call_hash", "parent_id"],
-     [[("id", .text "j0"), ("start_time", .ts "2020-01-01 00:00:00" ".5"), ("end_time", .null), ("task_hash", .text "t"),
+     [[("id", .text "j0"), ("start_time", .ts 1577836800 ".5"), ("end_time", .null), ("task_hash", .text "t"),
        ("cached", .int 0), ("call_hash", .null), ("parent_id", .null)],
-      [("id", .text "j1"), ("start_time", .ts "2020-01-01 00:00:01" ""), ("end_time", .null), ("task_hash", .text "t"),
+      [("id", .text "j1"), ("start_time", .ts 1577836801 ""), ("end_time", .null), ("task_hash", .text "t"),
        ("cached", .int 0), ("call_hash", .null), ("parent_id", .text "j0")]]⟩,
    ⟨"execution", ["id", "args", "job_id"], []⟩,
    ⟨"redun_version", ["id", "version", "timestamp"], []⟩]
